@@ -55,6 +55,11 @@ def box_case(path):
         if isinstance(t, tuple) and t[0] == "call" and t[1] == ("global", "isinstance") and len(t[2]) == 2 \
                 and t[2][0] == ("attr", ("param", "env"), "action_space") and t[2][1] == ("global", "lerax.space.box.Box"):
             return v
+    # the split is there but tests another object (e.g. env.unwrapped.action_space): still the Box / non-Box case split; the
+    # comparison with the reference (which clips to env.action_space's bounds) then shows what is different
+    for t, v in path.conds:
+        if isinstance(t, tuple) and t[0] == "call" and t[1] == ("global", "isinstance") and len(t[2]) == 2 and t[2][1] == ("global", "lerax.space.box.Box"):
+            return v
     return None
 
 
